@@ -21,7 +21,7 @@ pub static DEF: CheckDef = CheckDef {
            smooth family adds div, powf, ln, exp, reciprocal, sigmoid, softmax with operand domains enforced from \
            actual values), mixed tracked/untracked leaves; readme: the README loop with random constants, shapes, \
            threshold and iteration count (data-dependent branch); chain: self-product chains of depth 2..60; fanin: \
-           wide sums of products sharing leaves; dag-toggles: random DAGs in which handles are used while untracked and while tracked (start/stop_tracking between uses, untracked() results); control-flow: programs written statement by statement against the library where every next statement (operation, operands, loop exit) is decided from values read back from the library's own newest array (values(), indexing, sum_all); dag-long: random DAGs of 100..300 nodes; conv-graphs: a conv of a conv, one set of filters on two images, the same conv twice, a conv of a reshaped view, conv + bias + relu + reduction; deep-chain: multiplication chains of depth 500 / 2000 / 30000 / 100000 differentiated in a process of their own on an 8 MiB stack. Seeds omitted / ones / non-uniform integers. Non-trivial = some \
+           wide sums of products sharing leaves; dag-toggles: random DAGs in which handles are used while untracked and while tracked (start/stop_tracking between uses, untracked() results); control-flow: programs written statement by statement against the library where every next statement (operation, operands, loop exit) is decided from values read back from the library's own newest array (values(), indexing, sum_all); dag-long: random DAGs of 100..300 nodes; dag-big: 2..6 operations on arrays of up to 2500 elements; conv-graphs: a conv of a conv, one set of filters on two images, the same conv twice, a conv of a reshaped view, conv + bias + relu + reduction; deep-chain: multiplication chains of depth 500 / 2000 / 30000 / 100000 differentiated in a process of their own on an 8 MiB stack. Seeds omitted / ones / non-uniform integers. Non-trivial = some \
            tracked leaf received a non-zero gradient and the graph has at least two root-to-leaf paths; distinct = \
            distinct (program text without data, seed kind).",
     floors,
@@ -55,6 +55,7 @@ fn families(t: Tier) -> Vec<(&'static str, u64)> {
         ("control-flow", t.n(6_000, 300_000)),
         ("conv-graphs", t.n(3_000, 200_000)),
         ("dag-long", t.n(80, 4_000)),
+        ("dag-big", t.n(120, 6_000)),
         ("deep-chain", 4),
     ]
 }
@@ -304,6 +305,20 @@ pub fn gen(ctx: &Ctx, fam: &str, k: u64, r: &mut Rng) -> Program {
         }
         "readme" => readme_program(r),
         "conv-graphs" => conv_program(r),
+        "dag-big" => {
+            // a few operations on arrays of a thousand and more elements (buffers past any pooling / blocking threshold)
+            let mut cfg = GenCfg::exact();
+            cfg.max_leaves = 2;
+            cfg.min_ops = 2;
+            cfg.max_ops = 6;
+            cfg.max_rank = 2;
+            cfg.max_dim = 40;
+            cfg.max_numel = 2_500;
+            cfg.conv = false;
+            cfg.custom_ops = r.chance(1, 2);
+            cfg.untracked_eighths = 1;
+            gen_program(r, &cfg)
+        }
         "dag-long" => {
             // graphs of a hundred to three hundred nodes over a few small leaves
             let mut cfg = GenCfg::exact();
